@@ -3,7 +3,8 @@
  * w0, w1), ONE slice-by-8 step over the generated tables equals EIGHT byte steps of the bitwise definition:
  *
  *      CRC_SLICE8(m, w0, w1) == crc32{c,be}_bytes8(m, w0, w1)            (contract of crc32{c,be}_lemma_e,
- *                                                                         specs/crc_lemmas.h)
+ *                                                                         specs/crc_lemmas.h: the function returns
+ *                                                                         the right-hand side and ensures the equation)
  *
  * The direct query (96 input bits through eight 256-entry tables against 64 shift/xor steps) finishes on no back
  * end.  It is discharged by a PROOF SCRIPT, the body of the lemma function below.
@@ -530,9 +531,10 @@ static void CRC_FN(lemma_e_script)(uint32_t m, uint32_t w0, uint32_t w1)
 }
 
 /* LEMMA E as a lemma function: the script is its proof (unit group 5 enforces the contract of crc_lemmas.h) */
-void CRC_FN(lemma_e)(uint32_t m, uint32_t w0, uint32_t w1)
+uint32_t CRC_FN(lemma_e)(uint32_t m, uint32_t w0, uint32_t w1)
 {
 	CRC_FN(lemma_e_script)(m, w0, w1);
+	return CRC_FN(bytes8)(m, w0, w1);
 }
 
 void h_lemma_e_script(void)
@@ -545,7 +547,8 @@ void h_lemma_e_script(void)
 void h_lemma_e(void)
 {
 	LOAD_IN();
-	CRC_FN(lemma_e)(IN.m, IN.w0, IN.w1);
+	uint32_t r = CRC_FN(lemma_e)(IN.m, IN.w0, IN.w1);
+	CHECK(r == CRC_FN(bytes8)(IN.m, IN.w0, IN.w1), "the lemma function returns the bitwise definition's state after the eight bytes");
 	CHECK(CRC_SLICE8(IN.m, IN.w0, IN.w1) == CRC_FN(bytes8)(IN.m, IN.w0, IN.w1), "LEMMA E: one slice-by-8 table step = eight bitwise byte steps");
 	REACH("end");
 }
